@@ -97,6 +97,7 @@ class ControlledRunner(Runner):
         self.running: list[tuple[Task, object]] = []   # (task, TaskResult | BaseException), already executed
         self.results_map: dict[Task, TaskResult] = {}
         self.wait_calls = 0
+        self.empty_waits = 0
         ctl.runner = self
 
     # -- helpers ---------------------------------------------------------------------------------
@@ -150,6 +151,10 @@ class ControlledRunner(Runner):
         inflight = self._names(t for t, _ in self.running)
         self.ctl.log('wait', inflight, self._names(t for t, _, _ in self.queue), sorted(self._names(self.results_map)))
         if not self.running:
+            # nothing executing and nothing queued: the coordinator is waiting for a completion that cannot come
+            self.empty_waits += 1
+            if self.empty_waits > 25:
+                raise HarnessTimeout('wait() called repeatedly with nothing in flight')
             return
         ch = self.ctl.chooser
         if self.ctl.idle_budget > 0 and ch.choice(5) == 4:
@@ -226,6 +231,7 @@ class SpyRunner(Runner):
         self.yielded: set[str] = set()
         self.released: set[str] = set()
         self.cancelled = False
+        self.empty_waits = 0
         ctl.runner = self
 
     # -- gating helpers --------------------------------------------------------------------------------
@@ -234,7 +240,7 @@ class SpyRunner(Runner):
         for rec in vu.read_trace(self.ctl.obs_dir):
             if rec[0] == 'S':
                 started.append(rec[1])
-            elif rec[0] == 'E':
+            elif rec[0] in ('E', 'X', 'K'):
                 ended.add(rec[1])
         return [n for n in started if n not in ended]
 
@@ -262,6 +268,11 @@ class SpyRunner(Runner):
 
     def wait(self, *, timeout_seconds: Optional[float]) -> Iterator[tuple[Task, ResultMeta | BaseException]]:
         self._check_deadline()
+        if all(n in self.yielded for n in self.submitted):
+            # the coordinator waits although nothing it submitted is outstanding
+            self.empty_waits += 1
+            if self.empty_waits > 40:
+                raise HarnessTimeout('wait() called repeatedly with nothing in flight')
         if not self.ctl.gated or self.serial:
             self.ctl.log('wait')
             for task, res in self.real.wait(timeout_seconds=timeout_seconds):
@@ -280,12 +291,12 @@ class SpyRunner(Runner):
                 self.ctl.log('delivered', task.name)
             return
         unfinished = [n for n in self.submitted if n not in self.yielded]
-        if any(self.submitted[n] for n in unfinished):
-            return     # a cache load is in flight: completes on its own, not at rest
         inside = self._inside_run()
         blocked = [n for n in inside if n not in self.released]
         if any(n in self.released for n in unfinished):
             return     # a released node has not been handed back yet: not at rest
+        if any(self.submitted[n] for n in unfinished) and len(blocked) < self.max_workers:
+            return     # a cache load can still make progress on a free worker: completes on its own, not at rest
         if self.cancelled:
             expected = len(blocked)   # after cancel() queued work must not start; whatever runs is drained
         else:
